@@ -144,7 +144,7 @@ var c03Modelled = map[string]bool{
 	"strings_TrimSuffix": true, "strings_TrimSpace": true, "strings_Split": true, "strings_Join": true, "hex_DecodeString": true,
 	"hex_EncodeToString": true, "math_Int_String": true, "conv_string": true, "conv___byte": true, "len": true,
 	"types_ParseFxTarget": true, "types_FxTarget_GetTarget": true, "types_FxTarget_String": true, "types_FxTarget_IsIBC": true,
-	"types_FxTarget_IBCValidate": true, "concatMap": true, "joinMap": true, "unmodelledStr": true, "strconv_FormatUint": true,
+	"types_FxTarget_IBCValidate": true, "concatMap": true, "joinMap": true, "unmodelledStr": true, "unmodelledList": true, "strconv_FormatUint": true,
 	"strconv_Itoa": true,
 }
 
@@ -344,6 +344,11 @@ func (x *c03Tr) call(n *ast.CallExpr) c03Val {
 				if len(n.Args) == 1 {
 					v := x.expr(n.Args[0])
 					return c03Val{Lean: "Go.len " + c03Paren(v.Lean), Type: "int", Fields: v.Fields}
+				}
+			case "make":
+				// make([]string, 0[, n]): the empty list of texts (a list accumulator, see rangeLoop)
+				if len(n.Args) >= 2 && c.src(n.Args[0]) == "[]string" && c.src(n.Args[1]) == "0" {
+					return c03Val{Lean: c03EmptyList, Type: "[]string"}
 				}
 			}
 			// a function of the same package
@@ -557,9 +562,11 @@ func (x *c03Tr) builderWrite(s ast.Stmt) (string, c03Val, bool) {
 	return "", c03Val{}, false
 }
 
+const c03EmptyList = "([] : List Str)"
+
 func c03Append(a, b c03Val) c03Val {
 	l := c03Paren(a.Lean) + " ++ " + c03Paren(b.Lean)
-	if a.Lean == "([] : Str)" {
+	if a.Lean == "([] : Str)" || a.Lean == c03EmptyList {
 		l = b.Lean
 	}
 	return c03Val{Lean: l, Type: a.Type, Fields: c03Union(a.Fields, b.Fields)}
@@ -572,6 +579,10 @@ func (x *c03Tr) poison(n ast.Node) {
 		case *ast.AssignStmt:
 			for _, l := range t.Lhs {
 				if id, ok := l.(*ast.Ident); ok && id.Name != "_" {
+					if old, known := x.env[id.Name]; known && old.Type == "[]string" {
+						x.env[id.Name] = c03Val{Lean: "Go.unmodelledList " + leanStr(strings.Join(strings.Fields(x.firstLine(t)), " ")), Type: "[]string"}
+						continue
+					}
 					x.env[id.Name] = c03Val{Lean: c03Opaque(x.firstLine(t)), Type: "string"}
 				}
 			}
@@ -730,10 +741,25 @@ func (x *c03Tr) rangeLoop(n *ast.RangeStmt) bool {
 		}
 		return accs[b]
 	}
+	listAcc := map[string]bool{}
 	for _, st := range n.Body.List {
 		if b, v, ok := x.builderWrite(st); ok {
 			get(b).parts = append(get(b).parts, v)
 			continue
+		}
+		// l = append(l, f(e)) with l a list of texts: one element per element of L
+		if as, ok := st.(*ast.AssignStmt); ok && len(as.Lhs) == 1 && len(as.Rhs) == 1 {
+			if id, ok := as.Lhs[0].(*ast.Ident); ok {
+				if call, ok := as.Rhs[0].(*ast.CallExpr); ok && c.src(call.Fun) == "append" && len(call.Args) == 2 && c.src(call.Args[0]) == id.Name &&
+					saved[id.Name].Type == "[]string" && len(get(id.Name).parts) == 0 && get(id.Name).sep == nil {
+					v := x.expr(call.Args[1])
+					if v.Type == "string" {
+						get(id.Name).parts = append(get(id.Name).parts, v)
+						listAcc[id.Name] = true
+						continue
+					}
+				}
+			}
 		}
 		// if i > 0 { b.WriteString(sep) } as the first thing written to b
 		if is, ok := st.(*ast.IfStmt); ok && is.Init == nil && is.Else == nil && iName != "" && len(is.Body.List) == 1 {
@@ -758,6 +784,11 @@ func (x *c03Tr) rangeLoop(n *ast.RangeStmt) bool {
 		body := a.parts[0]
 		for _, p := range a.parts[1:] {
 			body = c03Val{Lean: c03Paren(body.Lean) + " ++ " + c03Paren(p.Lean), Fields: c03Union(body.Fields, p.Fields)}
+		}
+		if listAcc[b] {
+			x.env[b] = c03Append(x.env[b], c03Val{Lean: "List.map (fun x => " + body.Lean + ") " + c03Paren(list.Lean), Type: "[]string",
+				Fields: c03Union(list.Fields, body.Fields)})
+			continue
 		}
 		term := "Go.concatMap (fun x => " + body.Lean + ") " + c03Paren(list.Lean)
 		if a.sep != nil {
